@@ -25,8 +25,12 @@ package action
 //@ ghost func validatedTx(h iface, tx SignedTx) bool
 //@ ghost func rawBytesOf(t RawTx) bytes
 
+// ctxOK: what every handler may rely on about the context it is given (built by app.context.Action)
+//@ ghost func ctxOK(ctx *Context) bool = ctxFeeOK(ctx) && has(ctx.Currencies.nameMap, ctx.FeePool.feeOpt.FeeCurrency.Name) && ctx.Header != nil && ctx.GovernanceStore != nil && ctx.Validators != nil && ctx.Witnesses != nil && ctx.Domains != nil && ctx.Delegators != nil && ctx.NetwkDelegators != nil && ctx.EvidenceStore != nil && ctx.ETHTrackers != nil && ctx.ProposalMasterStore != nil && ctx.RewardMasterStore != nil && ctx.StateDB != nil
+
 //@ interface Tx
 //@   method Validate
+//@     requires ctxOK(arg0)                                                                                // C18.ctx
 //@     modifies vHas(arg0.State), vVal(arg0.State), sgas(arg0.State)
 //@     grants sgas(arg0.State) >= old(sgas(arg0.State))                                                     // C02.gas-monotone
 //@     grants result0 ==> validatedRaw(self, arg1.RawTx) && validatedTx(self, arg1)                        // C04.validated
@@ -34,6 +38,7 @@ package action
 //@     grants sessOpen(arg0.State) == old(sessOpen(arg0.State)) && bHas(arg0.State) == old(bHas(arg0.State)) && bVal(arg0.State) == old(bVal(arg0.State)) && wfState(arg0.State)   // C06.handler-frame
 //@     forbids (*storage.State).BeginTxSession (*storage.State).CommitTxSession (*storage.State).DiscardTxSession (storage.State).Write (*storage.State).Commit (*storage.State).WithoutGas (*storage.State).WithGasStore (*storage.State).LoadVersion (*storage.ChainState).Set (*storage.ChainState).Delete (*storage.ChainState).Commit   // C06.handler-frame
 //@   method ProcessCheck
+//@     requires ctxOK(arg0)                                                                                // C18.ctx
 //@     requires validatedRaw(self, arg1)                                                                   // C04.validated
 //@     requires sessOpen(arg0.State) && wfState(arg0.State)                                                // C06.session
 //@     modifies vHas(arg0.State), vVal(arg0.State), sgas(arg0.State)
@@ -41,6 +46,7 @@ package action
 //@     grants sessOpen(arg0.State) && bHas(arg0.State) == old(bHas(arg0.State)) && bVal(arg0.State) == old(bVal(arg0.State)) && wfState(arg0.State)   // C06.handler-frame
 //@     forbids (*storage.State).BeginTxSession (*storage.State).CommitTxSession (*storage.State).DiscardTxSession (storage.State).Write (*storage.State).Commit (*storage.State).WithoutGas (*storage.State).WithGasStore (*storage.State).LoadVersion (*storage.ChainState).Set (*storage.ChainState).Delete (*storage.ChainState).Commit   // C06.handler-frame
 //@   method ProcessDeliver
+//@     requires ctxOK(arg0)                                                                                // C18.ctx
 //@     requires validatedRaw(self, arg1)                                                                   // C04.validated
 //@     requires sessOpen(arg0.State) && wfState(arg0.State)                                                // C06.session
 //@     modifies vHas(arg0.State), vVal(arg0.State), sgas(arg0.State)
@@ -48,8 +54,9 @@ package action
 //@     grants sessOpen(arg0.State) && bHas(arg0.State) == old(bHas(arg0.State)) && bVal(arg0.State) == old(bVal(arg0.State)) && wfState(arg0.State)   // C06.handler-frame
 //@     forbids (*storage.State).BeginTxSession (*storage.State).CommitTxSession (*storage.State).DiscardTxSession (storage.State).Write (*storage.State).Commit (*storage.State).WithoutGas (*storage.State).WithGasStore (*storage.State).LoadVersion (*storage.ChainState).Set (*storage.ChainState).Delete (*storage.ChainState).Commit   // C06.handler-frame
 //@   method ProcessFee
+//@     requires ctxOK(arg0)                                                                                // C18.ctx
 //@     requires validatedTx(self, arg1)                                                                    // C04.validated
-//@     requires 0 <= arg2 && arg2 <= sgas(arg0.State)                                                        // C02.gas-start
+//@     requires 0 <= arg2 && arg2 <= sgas(arg0.State) && arg3 >= 0                                           // C02.gas-start
 //@     requires sessOpen(arg0.State) && wfState(arg0.State)                                                // C06.session
 //@     modifies vHas(arg0.State), vVal(arg0.State), sgas(arg0.State)
 //@     grants sgas(arg0.State) >= old(sgas(arg0.State))                                                     // C02.gas-monotone
@@ -77,9 +84,16 @@ package action
 //@   safety C18
 //@   requires ctxFeeOK(ctx)                                                                                                  // C18.ctx
 //@   requires 0 <= start && start <= sgas(ctx.State) && signatureCnt >= 0 && size >= 0                                                     // C02.gas-start
-//@   requires sgas(ctx.State) + signatureCnt * 5000 + size * 20 <= 9223372036854775807 && signatureCnt * 5000 <= 9223372036854775807 && size * 20 <= 9223372036854775807   // C02.gas-range (A-GASRANGE: the block gas counter stays within int64)
+//@   assumes sgas(ctx.State) + signatureCnt * 5000 + size * 20 <= 9223372036854775807 && signatureCnt * 5000 <= 9223372036854775807 && size * 20 <= 9223372036854775807   // A-GASRANGE the block gas counter stays within int64
 //@   requires len(signedTx.Signatures) >= 1                                                                                  // C18.validated-facts
-//@   requires signedTx.Fee.Price.Currency == ctx.FeePool.feeOpt.FeeCurrency.Name && has(ctx.Currencies.nameMap, signedTx.Fee.Price.Currency) && signedTx.Fee.Price.Value >= 0   // C18.validated-facts
+//@   requires has(ctx.Currencies.nameMap, ctx.FeePool.feeOpt.FeeCurrency.Name)                                              // C18.ctx
+//@   requires signedTx.Fee.Price.Currency == ctx.FeePool.feeOpt.FeeCurrency.Name && signedTx.Fee.Price.Value >= 0         // C18.validated-facts
 //@   ensures result0 ==> result1.GasUsed >= 0 ==> forall c string :: balTotal(ctx.Balances)[c] <= old(balTotal(ctx.Balances))[c]       // C02.fee-conserve
 //@   ensures result0 ==> forall k string :: bal(ctx.Balances)[k] < old(bal(ctx.Balances))[k] ==> k == balKey(bytes(pkAddr(signedTx.Signatures[0].Signer.KeyType, signedTx.Signatures[0].Signer.Data)), signedTx.Fee.Price.Currency)   // C03.fee-payer-is-signer
 //@   ensures result0 ==> feeTotal(ctx.FeePool) - old(feeTotal(ctx.FeePool)) == old(balTotal(ctx.Balances))[signedTx.Fee.Price.Currency] - balTotal(ctx.Balances)[signedTx.Fee.Price.Currency]   // C02.fee-conserve
+
+// ValidateFee: fee currency is the configured one and the price is at least the minimal fee (hence non-negative)
+//@ func ValidateFee
+//@   requires feeOpt != nil
+//@   modifies feeOpt.minimalFee
+//@   ensures result == nil ==> fee.Price.Currency == feeOpt.FeeCurrency.Name && fee.Price.Value >= 0       // C04.fee-valid
